@@ -11,6 +11,14 @@ CLAIMS = {
    technique="runtime monitoring: reference-model oracle (independent RFC 8259 parser + Matrix canonical encoder) observing every CanonicalJSON / EnforcedCanonicalJSON call over bounded-exhaustive and seeded-random values x scrambled presentations",
    text="Every call to CanonicalJSON / CanonicalJSONAssumeValid / EnforcedCanonicalJSON made by the workload is observed by a monitor that re-parses the output with an independent strict parser and compares value, canonical form, idempotence, presentation-independence and (per registered room version) the enforced integer rule. The space is sampled: all values of depth<=1 over a 14-atom/6-key alphabet and depth<=2 over a reduced one are enumerated, deeper values and invalid texts are seeded-random. It says 'held on the executions observed', which is the right level for a for-all-texts statement about a pure function.",
    note=TB + "abstains on ill-formed Unicode, duplicate keys and the spelling of non-integer numbers."),
+ "C02": dict(level="exploration", design="§4 C02",
+   technique="runtime monitoring: every SignJSON/VerifyJSON/ListKeyIDs call observed against the statement plus an independent ed25519 check over the reference canonical projection; seeded objects x signer sequences x tree mutations x re-serialisations",
+   text="Each generated object is signed by 1-3 successive signers through the real SignJSON; monitors assert completeness (fresh output, 3 re-serialisations, unsigned edits, after further signers), preservation of earlier signatures and unsigned, ListKeyIDs, and soundness against ~14 value-changing tree mutations and 8 identity/signature alterations, with an independent ed25519 verification as cross-check in both directions. Sampled, not exhaustive.",
+   note=TB + "abstains on malformed pre-existing signatures members."),
+ "C05": dict(level="exploration", design="§4 C05",
+   technique="runtime monitoring: reference redaction tables (per room-version algorithm) compared with RedactEventJSON / PDU.Redact output on generated events of every protected type x every registered version; idempotence, identity fields, event ID and signature validity monitored",
+   text="For every registered room version and every protected / ordinary event type, raw-assembled events carrying every keep-list key of every version plus random extras are redacted by the real code and compared (as JSON values) with a table-driven reference; built events are redacted through PDU.Redact and monitored for unchanged type/sender/room/state key/event ID (re-parsed, v3+), idempotence and surviving signatures (independent ed25519 check). Sampled per (version,type) cell; every cell is visited.",
+   note=TB + "content numbers limited to float64-exact values; abstains on v11+ member third_party_invite.signed."),
 }
 NOT_YET = "check not built yet (work in progress; see DESIGN.md §4 for the planned monitor)"
 
